@@ -64,6 +64,7 @@ const Shape g_shapes[] = {
 const int g_nshapes = 8;
 static const Site g_nosite = {"", 0UL, ""};
 const Site& site_of(int, int) { return g_nosite; }
+bool site_exists(int, int) { return false; }
 }  // namespace hm
 using namespace hm;
 
